@@ -87,7 +87,10 @@ type target struct {
 	mu    sync.Mutex
 	steps []step
 	reqs  int
+	late  int // stalled requests the client did not give up within the configured response-header-timeout + slack
 }
+
+const stallSlack = 3 * time.Second // on top of the gun's response-header-timeout (1 s)
 
 func newTarget() *target {
 	ln, err := net.Listen("tcp", "127.0.0.1:0")
@@ -134,6 +137,19 @@ func (t *target) serveReader(c net.Conn, br *bufio.Reader) {
 			s = step{beh: "status", status: 200, body: []byte("ok")}
 		}
 		t.mu.Unlock()
+		if s.beh == "stall" {
+			// answer nothing and see when the client gives up (closes the connection): with the configured
+			// response-header-timeout of 1 s that must happen within 1 s + slack; wait at most 12 s
+			begin := time.Now()
+			_ = c.SetReadDeadline(begin.Add(12 * time.Second))
+			_, _ = br.ReadByte()
+			if time.Since(begin) > time.Second+stallSlack {
+				t.mu.Lock()
+				t.late++
+				t.mu.Unlock()
+			}
+			return
+		}
 		if !respond(c, s) {
 			return
 		}
@@ -218,9 +234,6 @@ func respond(c net.Conn, s step) bool {
 	case "badchunk":
 		w(head(s.status, extra+"Transfer-Encoding: chunked\r\n", -1))
 		w("zz\r\nhello\r\n0\r\n\r\n")
-		return false
-	case "stall": // nothing for longer than the gun's response-header-timeout, then close
-		time.Sleep(3 * time.Second)
 		return false
 	}
 	w(head(500, "", 0))
@@ -482,12 +495,12 @@ func runEngine(t *tokens) string {
 		case err := <-done:
 			res := strings.TrimSpace(out.String())
 			if err != nil || !strings.HasPrefix(res, "run=") {
-				return "run=crashed n=0"
+				return "run=crashed timely=1 n=0"
 			}
 			return res
 		case <-time.After(120 * time.Second):
 			_ = cmd.Process.Kill()
-			return "run=hang n=0"
+			return "run=hang timely=1 n=0"
 		}
 	}
 	start := t.p
@@ -527,6 +540,7 @@ func runEngineOnce(t *tokens) string {
 		steps = append(steps, s)
 	}
 	var addr string
+	var rawTarget *target
 	if gun == "http2" {
 		srv := newH2Target(steps, mode != "2")
 		addr = srv.Listener.Addr().String()
@@ -545,6 +559,7 @@ func runEngineOnce(t *tokens) string {
 			tg.steps = steps
 			tg.mu.Unlock()
 		}
+		rawTarget = tg
 		addr = tg.ln.Addr().String()
 		if refused {
 			_ = tg.ln.Close() // nobody listens on that port any more: connection refused
@@ -639,9 +654,19 @@ func runEngineOnce(t *tokens) string {
 		ss = append(ss, fmt.Sprintf("%d:%s", r.code, vh.B(r.err)))
 	}
 	sort.Strings(ss)
-	out := fmt.Sprintf("run=%s n=%d", run, len(ss))
+	// timely = every stalled request was abandoned by the gun within response-header-timeout + slack
+	timely := true
+	if rawTarget != nil {
+		rawTarget.mu.Lock()
+		timely = rawTarget.late == 0
+		rawTarget.mu.Unlock()
+	}
+	out := fmt.Sprintf("run=%s timely=%s n=%d", run, vh.B(timely), len(ss))
 	if len(ss) > 0 {
 		out += " " + strings.Join(ss, " ")
 	}
 	return out
 }
+
+func tempDir() string     { return os.TempDir() }
+func removeFile(p string) { _ = os.Remove(p) }
